@@ -373,3 +373,6 @@ MUTATIONS += [
       find="    if ptr > data.len() || ptr + len > data.len() {\n        return Err(InvokeError::SelfError(WasmRuntimeError::MemoryAccessError));\n    }\n    Ok(data[ptr..ptr + len].to_vec())",
       replace="    if data.len() >= ptr && data.len() >= ptr + len {\n        Ok(data[ptr..ptr + len].to_vec())\n    } else {\n        Err(InvokeError::SelfError(WasmRuntimeError::MemoryAccessError))\n    }"),
 ]
+MUTATIONS += [
+ dict(name="benign-c03-supply-update-in-helper", props=["C03"], benign=True, patch="selftest/patches/benign-c03-supply-update-in-helper.diff"),
+]
